@@ -51,6 +51,42 @@ def build_harness(work, race=False):
     return os.path.join(work, 'verifh-race' if race else 'verifh')
 
 
+def build_cli(work):
+    """Builds the real command-line program (cmd/arcaflow) from /repo's current working tree with the scripted deployer
+    overlaid (harness/cli/cli_init.go). Returns the binary path or raises RuntimeError."""
+    p = subprocess.run([os.path.join(VERIF, 'bin', 'build_harness.sh'), work, 'cli'], env=GOENV, capture_output=True, text=True)
+    if p.returncode != 0:
+        raise RuntimeError('cli build failed:\n' + p.stdout + p.stderr)
+    return os.path.join(work, 'verifcli')
+
+
+CLI_CONFIG = 'deployers:\n  scripted:\n    deployer_name: scripted\nlog:\n  level: error\n'
+
+
+def run_cli(binary, ctxdir, script, args, cwd=None, timeout=60, sigint_after=None):
+    """runs the command-line program; returns (exit code, stdout, stderr, seconds). sigint_after: send an interrupt after
+    that many seconds (as a terminal's ctrl-C would)"""
+    import signal
+    import time
+    env = dict(GOENV, VERIF_CLI_SCRIPT=json.dumps(script))
+    t0 = time.time()
+    p = subprocess.Popen([binary] + args, cwd=cwd or ctxdir, env=env, stdout=subprocess.PIPE, stderr=subprocess.PIPE, text=True)
+    try:
+        if sigint_after is not None:
+            try:
+                out, err = p.communicate(timeout=sigint_after)
+            except subprocess.TimeoutExpired:
+                p.send_signal(signal.SIGINT)
+                out, err = p.communicate(timeout=timeout)
+        else:
+            out, err = p.communicate(timeout=timeout)
+    except subprocess.TimeoutExpired:
+        p.kill()
+        out, err = p.communicate()
+        return 124, out, err, time.time() - t0
+    return p.returncode, out, err, time.time() - t0
+
+
 # ---------------------------------------------------------------------------------------------------------------
 # abstract workflow trees
 
